@@ -481,7 +481,71 @@ def _sig(b, op):
     return out
 
 
+def r8_no_recursion_on_file_contents(cx):
+    """'never crash': the reader walks a file whose bytes it does not control; a function that calls itself (directly or
+    through a cycle of statically resolved calls) recurses as deep as the file tells it to -- a damaged header whose
+    mirror at the end is intact sends `open(file)` to `open(the same region)` until the stack overflows (SIGABRT, not an
+    error). The crate has no such cycle; any that appears in code reachable by the reader is reported."""
+    F = cx.F
+    import inline
+    g = {}
+    for f in F.live_fns:
+        if "blocks" not in f:
+            continue
+        outs = set()
+        for blk in f["blocks"]:
+            t = blk["t"]
+            if t["k"] == "call" and not blk.get("cleanup"):
+                c = inline._callee_fn(t)
+                if c is not None:
+                    outs.add(c)
+        g[f["id"]] = outs
+    # strongly connected components (iterative Tarjan)
+    index, low, on, stack, comps = {}, {}, set(), [], []
+    counter = [0]
+    for root in g:
+        if root in index:
+            continue
+        work = [(root, iter(g.get(root, ())))]
+        index[root] = low[root] = counter[0]; counter[0] += 1
+        stack.append(root); on.add(root)
+        while work:
+            v, it = work[-1]
+            adv = False
+            for w in it:
+                if w not in g:
+                    continue
+                if w not in index:
+                    index[w] = low[w] = counter[0]; counter[0] += 1
+                    stack.append(w); on.add(w)
+                    work.append((w, iter(g.get(w, ()))))
+                    adv = True
+                    break
+                elif w in on:
+                    low[v] = min(low[v], index[w])
+            if adv:
+                continue
+            work.pop()
+            if work:
+                low[work[-1][0]] = min(low[work[-1][0]], low[v])
+            if low[v] == index[v]:
+                comp = []
+                while True:
+                    w = stack.pop(); on.discard(w); comp.append(w)
+                    if w == v:
+                        break
+                if len(comp) > 1 or v in g.get(v, ()):
+                    comps.append(comp)
+    bad = [c for c in comps if any(re.search(r"^<?(reader|bases|common|tools)::| as (reader|bases|common)::", F.fns[x]["name"]) for x in c)]
+    for c in bad:
+        f = F.fns[sorted(c)[0]]
+        cx.ob("R8", "R8/recursion@%s" % re.sub(r"<.*?>", "", f["name"]).split("::")[-1], False, f,
+              "statically resolved call cycle in code that reads files: %s" % " -> ".join(F.fns[x]["name"] for x in c))
+    cx.ob("R8", "R8/no-recursion-in-the-reader", not bad, "(call graph)", "%d functions, %d statically resolved call cycles, none through reader / bases / common code" % (len(g), len(comps)))
+
+
 RULES = [
+    ("R8", r8_no_recursion_on_file_contents, 1),
     ("R1", r1_pool_task, 2),
     ("R2", r2_terminal_state, 2),
     ("R2", r2b_every_publisher_notifies_on_error, 1),
